@@ -299,6 +299,37 @@ def run(ctx):
             t = F.G.build_term(fl, F.G.shape_term(rnd, "t", -1.0, 1.0, kind=rnd.choice(["Triangle", "Trapezoid", "Gaussian", "Rectangle", "Bell"])))
             for k in INTEGRAL:
                 getattr(fl, k)(rnd.choice([10, 100, 7])).defuzzify(t, -1.0, 1.0)
+        # a user's term whose membership function is written for one value at a time (`if`, `math`): the defuzzifier may refuse
+        # it, but a value it does report is the defined point of the set sampled point by point
+        class Dome(fl.Term):
+            def __init__(self, name, left, right, outside):
+                super().__init__(name)
+                self.left, self.right, self.outside = left, right, outside
+
+            def membership(self, x):
+                if x <= self.left or x >= self.right:
+                    return self.outside
+                return self.height * math.sin(math.pi * (x - self.left) / (self.right - self.left))
+
+        for i, rnd in ctx.cases("scalar-only term", ctx.scale(30, 600)):
+            lo, hi = 0.0, rnd.choice([10.0, 1.0, 4.0])
+            a = rnd.uniform(lo, 0.5 * hi)
+            term = Dome("dome", a, rnd.uniform(a + 0.1 * hi, hi), rnd.choice([0, 0.0]))
+            r = rnd.choice([10, 50, 37])
+            xs = midpoints(lo, hi, r)
+            mu = [float(term.membership(x)) for x in xs]
+            with probe.quiet():
+                for k in INTEGRAL:
+                    ctx.evaluated()
+                    try:
+                        got = float(np.asarray(getattr(fl, k)(r).defuzzify(term, lo, hi)).ravel()[0])
+                    except Exception:
+                        ctx.hit("scalar-only term refused")
+                        continue
+                    want, low, high = define(k, xs, mu)
+                    ctx.hit("scalar-only term defuzzified")
+                    if not (feq(got, want) or (low - 1e-9 <= got <= high + 1e-9) or abs(got - want) <= 1e-9 * max(1.0, abs(want))):
+                        ctx.violation(f"{k}: a term evaluated one value at a time gives another result than the sampled definition", {"defuzzifier": k, "resolution": r, "term": [term.left, term.right], "outside_value": repr(term.outside)}, want, got)
         probe.report(ctx)
         reach.report(ctx)
     for k in INTEGRAL:
